@@ -939,6 +939,23 @@ fn run_final(rn: &mut Runner, s: &String, mk_ops: &dyn Fn(usize, &String) -> Vec
         && rn.apply(Op::OptionRoundTrip { t: 4 }, &case)
         && rn.apply(Op::Truncate { t: 4, n: 16 - last.len_utf8(), try_: true }, &case)
         && rn.apply(Op::InsertStr { t: 4, i: 0, s: last.to_string(), try_: false }, &case);
+    // the same 16 bytes arriving from the heap (shrink into inline storage) and from a static text
+    let _ = rn.apply(Op::WithCap { t: 5, n: 40, try_: false }, &case)
+        && rn.apply(Op::PushStr { t: 5, s: s.clone(), try_: false }, &case)
+        && rn.apply(Op::Clone { t: 6, src: 5 }, &case)
+        && rn.apply(Op::ShrinkFit { t: 5, try_: false }, &case)
+        && rn.apply(Op::ShrinkTo { t: 6, n: 3, try_: true }, &case)
+        && rn.apply(Op::Remove { t: 5, i: 0, try_: false }, &case)
+        && rn.apply(Op::Retain { t: 6, salt: 8, try_: false }, &case);
+    let id = register_static(s);
+    let mut longer = s.clone();
+    longer.push_str("+tail");
+    let id2 = register_static(&longer);
+    let _ = rn.apply(Op::FromStatic { t: 7, id }, &case)
+        && rn.apply(Op::FromStatic { t: 3, id: id2 }, &case)
+        && rn.apply(Op::Truncate { t: 3, n: 16, try_: false }, &case)
+        && rn.apply(Op::Reserve { t: 3, n: 0, try_: false }, &case)
+        && rn.apply(Op::OptionRoundTrip { t: 3 }, &case);
     rn.end_case(&case);
 }
 
@@ -1218,6 +1235,68 @@ pub fn engine_eqclass(a: &Args) {
             // one more step so that the pairwise monitor sees the complete set
             let _ = rn.apply(Op::OptionRoundTrip { t: 0 }, &case);
         }
+        rn.end_case(&case);
+    }
+    rn.finish(a, None, vec![]);
+}
+
+// ---------------------------------------------------------------------------------------------
+// C01/C02/C03: very long texts around the widths a length field could be squeezed into
+
+pub fn engine_huge(a: &Args) {
+    crate::install_shim(a);
+    let seed = a.num("seed", 1);
+    let mut r = Rng::new(seed);
+    let mut rn = Runner::new("huge", seed);
+    rn.set_decides(a);
+    let max = a.num("max", (1 << 25) + 3) as usize;
+    let lens: Vec<usize> = [255usize, 256, 65535, 65536, 65537, 1 << 20, (1 << 24) - 1, 1 << 24, (1 << 24) + 1000, (1 << 25) + 3]
+        .into_iter()
+        .filter(|&l| l <= max)
+        .collect();
+    for &len in &lens {
+        let case = format!("len={len}");
+        rn.announce(a, &case);
+        // non-periodic content so that a short or shifted copy cannot go unnoticed
+        let mut text = String::with_capacity(len + 8);
+        let mut i = 0u64;
+        while text.len() < len {
+            let room = len - text.len();
+            let c = if room >= 4 && i % 7 == 0 { '𝄞' } else if room >= 3 && i % 5 == 0 { '€' } else if room >= 2 && i % 3 == 0 { 'é' } else { (b'a' + (mix(i, 77) % 26) as u8) as char };
+            text.push(c);
+            i += 1;
+        }
+        let mid = text.floor_char_boundary(len / 2);
+        let q3 = text.floor_char_boundary(len / 4 * 3);
+        let ops: Vec<Op> = vec![
+            Op::FromString { t: 0, s: text.clone() },
+            Op::Clone { t: 1, src: 0 },
+            Op::Reserve { t: 1, n: 0, try_: false },      // un-share by copy
+            Op::Push { t: 1, c: '!', try_: false },
+            Op::Clone { t: 2, src: 1 },
+            Op::Retain { t: 2, salt: (r.next() | 2) & !5, try_: false }, // shared: copy, then compact
+            Op::Clone { t: 3, src: 0 },
+            Op::InsertStr { t: 3, i: mid, s: "<-inserted->".into(), try_: true },
+            Op::Clone { t: 4, src: 0 },
+            Op::Remove { t: 4, i: 0, try_: false },
+            Op::Clone { t: 5, src: 0 },
+            Op::Truncate { t: 5, n: q3, try_: false },      // shorter than its sibling
+            Op::PushStr { t: 5, s: "tail after truncate".into(), try_: false },
+            Op::Clone { t: 6, src: 0 },
+            Op::ShrinkTo { t: 6, n: 3, try_: false },
+            Op::Reserve { t: 0, n: len / 2 + 9, try_: true },
+            Op::ShrinkFit { t: 0, try_: false },
+            Op::Extend { t: 0, kind: ItemKind::Str, items: vec!["x".into(), "yz€".into()], hint: None },
+            Op::CloneFrom { t: 6, src: 0 },
+            Op::Pop { t: 6, try_: false },
+            Op::Clear { t: 1 },
+        ];
+        for op in ops {
+            if !rn.apply(op, &case) {
+                break;
+            }
+        }
+        rn.hit(mix(0x4855, len as u64), || format!("21-op un-share/mutate sequence on a {len}-byte text"));
         rn.end_case(&case);
     }
     rn.finish(a, None, vec![]);
